@@ -489,6 +489,21 @@ pub fn count_move_in(v: &[Action], i: u8, d: Direction) -> u8 {
     }
     r
 }
+/// every listed action is a Move from a real square (index < 64) that satisfies `legal`
+pub fn all_legal<F: Fn(u8, Direction) -> bool>(v: &[Action], from: usize, legal: F) -> bool {
+    let mut r = true;
+    let mut k = 0;
+    while k < 5 {
+        if k >= from && k < v.len() {
+            r = r && match v[k] {
+                Action::Move(s, d) => s.index() < 64 && legal(s.index() as u8, d),
+                _ => false,
+            };
+        }
+        k += 1;
+    }
+    r
+}
 pub fn all_moves(v: &[Action]) -> bool {
     let mut r = true;
     let mut k = 0;
@@ -525,6 +540,8 @@ fn c01_gen_pull() {
     assert!(v.len() <= 4 && all_moves(&v), "C01: at most four pull completions, all Moves");
     assert!(has_move_in(&v, i, d) == spec, "C01: offered pull completions == legal pull completions");
     assert!(count_move_in(&v, i, d) <= 1, "C01: no pull completion listed twice");
+    let pp = pp_of(st);
+    assert!(all_legal(&v, 0, |s, e| match pp { Pp::Pull(psq, pt) => pull_complete(&pb, side, psq, pt, s, e), _ => false }), "C01/C19: every listed pull completion is a legal step from a real square");
 }
 // @obl props=C01,C02,C12,C13,C19 tier=quick kind=harness-contract mem=10 est=60 timeout=1500
 // @fns GameState::extend_with_pull_piece_actions
@@ -561,6 +578,8 @@ fn c01_gen_pull_dedup() {
     }
     assert!((cnt >= 1) == (spec || (pi == i && pd == d)), "C01: pull completion present iff legal (or already listed)");
     assert!(cnt <= 1, "C01: no action listed twice after de-duplication");
+    let pp = pp_of(st);
+    assert!(all_legal(&v, 1, |s, e| match pp { Pp::Pull(psq, pt) => pull_complete(&pb, side, psq, pt, s, e), _ => false }), "C01/C19: everything appended is a legal pull completion from a real square");
 }
 // @obl props=C01,C02,C07,C12,C13,C19 tier=quick kind=harness-contract mem=5 est=160
 // @fns GameState::must_complete_push_actions GameState::curr_player_non_frozen_pieces shift_pieces_in_opp_direction piece_type_at_bit PushPullState::unwrap_must_complete_push Square::from_bit_board
@@ -587,6 +606,8 @@ fn c01_gen_push_completion() {
     assert!(v.len() >= 1 && v.len() <= 4 && all_moves(&v), "C01/C12: a pending push always has 1..4 completions");
     assert!(has_move_in(&v, i, d) == spec, "C01/C12: push completions == steps of unfrozen strictly stronger friends into the vacated square");
     assert!(count_move_in(&v, i, d) <= 1, "C01: no push completion listed twice");
+    let pp = pp_of(st);
+    assert!(all_legal(&v, 0, |s, e| match pp { Pp::Push(psq, vt) => push_complete(&pb, side, psq, vt, s, e), _ => false }), "C01/C19: every listed push completion is a legal step from a real square");
 }
 // ===========================================================================
 // The history oracle (DESIGN 4.4).  hash_history_contains_hash_twice is the only reader of
